@@ -1,20 +1,21 @@
-\* exhaustive: one key-of-set column with a lazily drained iterator, <= 3 ops
+\* exhaustive, WITH the per-session family cache: one wide and one set column, every order of first touches
+\* (direct op, buffered op at consume, get, scan, iterator) across commits and reopen, <= 3 ops
 SPECIFICATION Spec
 CONSTANTS
-  WCols = {}
+  WCols = {"W1"}
   SCols = {"S1"}
-  Keys = {"K1", "K2"}
-  VTypes = {}
-  Vals = {}
+  Keys = {"K1"}
+  VTypes = {"V1"}
+  Vals = {1}
   Elems = {"E1", "E2"}
   MaxBatches = 2
-  MaxBufs = 0
+  MaxBufs = 1
   MaxIters = 1
   MaxOps = 3
   AtomicCommit = TRUE
   SnapshotScan = TRUE
   Alias = {}
-  TrackTouch = FALSE
+  TrackTouch = TRUE
   MisTag = {}
 INVARIANTS TypeOK ReadsLastCommitted ScansExactMembers IterSound ResultsIgnoreTouched OwnFamilyOnly
 PROPERTY OnlyCommitChanges
